@@ -230,11 +230,11 @@ func vhC05OnSeg(a, b, p Point) bool {
 func VH_C05_dashdriver_Q() {
 	vStub("math.Mod", vhModBounded) // exact for |offset| <= 4 periods (here <= 2)
 	// quick tier: the three two-subpath shapes (they contain the single-subpath cases)
-	lo := 2
+	loShape := 2
 	if vTier() == 1 {
-		lo = 0
+		loShape = 0
 	}
-	shapeK := vChoose(lo, 4)
+	shapeK := vChoose(loShape, 4)
 	shapes := vhC05Shapes(shapeK)
 	p := &Path{}
 	for _, s := range shapes {
